@@ -1,7 +1,115 @@
+import MesonModel.Det.Model
 import Driver.Proto
-/- driver commands of area `det` (stub until the area is built) -/
+/- driver commands of area `det` (C06 emitters) -/
 namespace Driver.Det
+open MesonModel.Det Driver
 
-def handle (cmd : String) (fs : List String) : String := "bad-op"
+def showErr : EmitError → String
+  | .newlineInNinjaText => "ERR:newline"
+  | .unknownConfType k => "ERR:conftype:" ++ encodeStr k
+
+def showRes : Except EmitError Str → String
+  | .ok s => "OK:" ++ encodeStr s
+  | .error e => showErr e
+
+def natOf (s : String) : Nat := (s.trimAscii.toString.toNat?).getD 0
+
+def natList (f : String) : List Nat :=
+  if f.trimAscii.isEmpty then [] else (f.splitOn ",").map natOf
+
+def parseVal (kind : Nat) (v : Str) : ConfVal :=
+  match kind with
+  | 0 => .bool false
+  | 1 => .bool true
+  | 2 => .int (match (String.ofList v).toInt? with | some i => i | none => 0)
+  | 3 => .str v
+  | _ => .other
+
+/-- the list encoding cannot tell `[]` from `[""]`: parallel lists are padded to the length of their key list -/
+def padTo (n : Nat) (l : List Str) : List Str := l ++ List.replicate (n - l.length) []
+
+def zip3 {α β γ} : List α → List β → List γ → List (α × β × γ)
+  | a :: as, b :: bs, c :: cs => (a, b, c) :: zip3 as bs cs
+  | _, _, _ => []
+
+def mkKeys (subFlags : List Nat) (subs : List Str) (machines : List Nat) (names : List Str) : List OptKey :=
+  let subs := padTo subFlags.length subs
+  let names := padTo subFlags.length names
+  (zip3 (subFlags.zip subs) machines names).map fun ((f, s), m, n) =>
+    { sub := if f = 1 then some s else none, machine := m, name := n }
+
+def kindOf : Nat → OptKind
+  | 0 => .dir | 1 => .test | 2 => .core | 3 => .backend | 4 => .base | 5 => .compiler | 6 => .project
+  | _ => .other
+
+def showRows (rows : List (Str × Str)) : String :=
+  ";".intercalate (rows.map fun (n, s) => encodeStr n ++ "/" ++ encodeStr s)
+
+/-- index permutation produced by `sorted` on (key, index) pairs -/
+def sortIdx (lt : OptKey → OptKey → Bool) (keys : List OptKey) : List Nat :=
+  (pySortedBy (fun (a b : OptKey × Nat) => lt a.1 b.1) (keys.zip (List.range keys.length))).map Prod.snd
+
+/-- file-system trace: ops `w:i:c` (in place), `r:i:c` (tmp + replace_if_different), `x:i:c`
+(tmp + os.replace); answer: per op the touched paths, then the final contents -/
+def pathOf (i : Nat) : Str := ("p" ++ toString i).toList
+def contentOf (i : Nat) : Str := ("c" ++ toString i).toList
+
+def runFs (ops : List (String × Nat × Nat)) : String :=
+  let step := fun (acc : FS × List String) (op : String × Nat × Nat) =>
+    let (fs, out) := acc
+    let (k, i, c) := op
+    let w := if k == "w" then Writer.inPlace else if k == "r" then Writer.viaReplaceIfDifferent else Writer.viaReplace
+    let fs' := writeOut fs w (pathOf i) (contentOf c)
+    let touched := (fs'.files.filter fun e => e.2.mtime > fs.clock).map fun e => String.ofList e.1
+    let touched := touched.toArray.qsort (· < ·) |>.toList
+    (fs', out ++ [",".intercalate touched])
+  let (fs, out) := ops.foldl step (⟨[], 0⟩, [])
+  let final := (fs.files.map fun e => String.ofList e.1 ++ "=" ++ String.ofList e.2.content).toArray.qsort (· < ·) |>.toList
+  ";".intercalate out ++ "#" ++ ",".intercalate final
+
+def parseOps (f : String) : List (String × Nat × Nat) :=
+  if f.trimAscii.isEmpty then [] else
+  (f.splitOn ",").filterMap fun o =>
+    match o.splitOn ":" with
+    | [k, i, c] => some (k, natOf i, natOf c)
+    | _ => none
+
+def handle (cmd : String) (fs : List String) : String :=
+  match cmd, fs with
+  | "sorted", [l] => encodeStrList (sortedStrs (decodeStrList l))
+  | "quote", [b, t] => showRes (ninjaQuote (b == "1") (decodeStr t))
+  | "buildline", [outs, imp, rule, rsp, ins, deps, od] =>
+    showRes (buildLine { outs := decodeStrList outs, implicitOuts := decodeStrList imp, rule := decodeStr rule,
+                         useRsp := rsp == "1", ins := decodeStrList ins, deps := decodeStrList deps,
+                         orderdeps := decodeStrList od })
+  | "envhash", [n, ks, vs] =>
+    let n := natOf n
+    encodeStr (envHashInput ((padTo n (decodeStrList ks)).zip (padTo n (decodeStrList vs))))
+  | "cheader", [nasm, mac, ks, kinds, vs, ds] =>
+    let n := (natList kinds).length
+    let vals := ((natList kinds).zip (padTo n (decodeStrList vs))).map fun (k, v) => parseVal k v
+    showRes (dumpCHeader (nasm == "1") (decodeStr mac) (zip3 (padTo n (decodeStrList ks)) vals (padTo n (decodeStrList ds))))
+  | "optsort", [fixed, sf, subs, ms, ns] =>
+    let keys := mkKeys (natList sf) (decodeStrList subs) (natList ms) (decodeStrList ns)
+    ",".intercalate ((sortIdx (if fixed == "1" then optKeyLtFixed else optKeyLt) keys).map toString)
+  | "optstr", [sf, subs, ms, ns] =>
+    encodeStrList ((mkKeys (natList sf) (decodeStrList subs) (natList ms) (decodeStrList ns)).map OptKey.show)
+  | "buildopts", [fixed, sf, subs, ms, ns, kinds, bsf, bsubs, bms, bns] =>
+    let keys := mkKeys (natList sf) (decodeStrList subs) (natList ms) (decodeStrList ns)
+    let store := keys.zip ((natList kinds).map kindOf)
+    let base := mkKeys (natList bsf) (decodeStrList bsubs) (natList bms) (decodeStrList bns)
+    showRows (if fixed == "1" then introBuildoptionsFixed store base else introBuildoptions store base)
+  | "testdeps", [l] => encodeStrList (testDepends (decodeStrList l))
+  | "ldpath", [l] => encodeStr (ldLibraryPath (decodeStrList l))
+  | "depnames", [flags, names] =>
+    -- flags: 1 = named, 0 = anonymous (the field then holds str(uuid) minted for it)
+    let ds := ((natList flags).zip (decodeStrList names)).zipIdx
+    let fresh := fun (i : Nat) => match ds.find? (fun e => e.2 = i) with | some e => e.1.2 | none => []
+    encodeStrList (targetDependencies fresh (ds.map fun e => if e.1.1 = 1 then DepRef.named e.1.2 else DepRef.anon e.2))
+  | "excludes", [f, d] =>
+    let r := installPlanExcludes (decodeStrList f) (decodeStrList d)
+    encodeStrList r.1 ++ "|" ++ encodeStrList r.2
+  | "fs", [ops] => runFs (parseOps ops)
+  | _, _ => "bad-op"
 
 end Driver.Det
